@@ -426,8 +426,7 @@ def find_uid(folder, uid):
     root = os.path.join(folder, "collection-root")
     hits = []
     for d, dirs, files in os.walk(root):
-        if ".Radicale.cache" in d:
-            continue
+        dirs[:] = [x for x in dirs if x != ".Radicale.cache"]      # the history cache grows with every item ever stored
         for f in files:
             if f.startswith(".Radicale"):
                 continue
@@ -444,11 +443,9 @@ def destination_suite(ctx):
     from vlib.impl import Server, event
     from radicale.app import move as move_mod
     rng = ctx.rng
-    n = ctx.n(500, 6000)
-    with X.fast_server(CONF) as srv:
-        srv.mkcol("/u/")
-        srv.mkcalendar("/u/cal/")
-        srv.mkcalendar("/u/cal2/")
+    n = ctx.n(500, 4000)
+    import contextlib
+    with contextlib.ExitStack() as stack:
         cases = []
         fixed = [("http://127.0.0.1", "/u/cal/b%20c.ics"), ("http://127.0.0.1", "/u/cal/c;d.ics"), ("http://127.0.0.1", "/u/cal/c%3Bd.ics"),
                  ("http://127.0.0.1", "/u/cal/%C3%A9.ics"), ("http://127.0.0.1", "/u/cal/é.ics"), ("http://127.0.0.1:80", "/u/cal/x.ics"),
@@ -461,6 +458,13 @@ def destination_suite(ctx):
                  ("http://127.0.0.1", "/u/cal/x%2Fy.ics"), ("http://127.0.0.1", "/v/cal/x.ics"), ("http://127.0.0.1", "/u/cal/x.ics;p=1"),
                  ("http://127.0.0.1", "/u/cal/x%20.ics"), ("http://127.0.0.1", "/u/cal/%ffz.ics"), ("http://127.0.0.1:080", "/u/cal/x.ics")]
         for k in range(n):
+            if k % 150 == 0:
+                # Radicale's history cache makes every write O(items ever stored in the collection): fresh store per chunk
+                stack.close()
+                srv = stack.enter_context(X.fast_server(CONF))
+                srv.mkcol("/u/")
+                srv.mkcalendar("/u/cal/")
+                srv.mkcalendar("/u/cal2/")
             base = rng.choice(["", "", "/radicale", "/my app", X.rand_prefix(rng)])
             if k < len(fixed):
                 pre, tail = fixed[k]
@@ -854,34 +858,36 @@ def mon_same_decoding(ctx):
     """`decodes it the same way`, stated on the implementation: a URL used as request target of PUT, as multiget href
     and as MOVE Destination names the same file; a URL that is not below the base prefix names nothing."""
     rng = ctx.rng
-    n = ctx.n(240, 6000)
+    n = ctx.n(240, 3000)
     checked = 0
-    with X.fast_server(SD_CONF) as srv:
-        for base in ["", "/radicale", "/r", "/my app"]:
-            fr = sd_front(srv, base)
-            if base == "/r":
-                for top in ("/2u/", "/xu/"):
-                    srv.mkcol(top), srv.mkcalendar(top + "cal/")
-            for k in range(n // 4):
-                name = X.rand_component(rng, 8)
-                path = "/u/cal/" + name
-                for url in rng.sample(spellings(rng, base + path), 3):
-                    checked += 1
-                    bad = sd_check_url(srv, fr, base, url, path, "sd%d" % checked)
-                    if bad:
-                        ctx.violation(bad[0], bad[1])
-                        return
-                if base:
-                    # a sibling of the prefix is not below the prefix
-                    outs = [urllib.parse.quote(base + rng.choice(["2", "x", "-", "."]) + path)]
-                    if base == "/r":
-                        outs.append(urllib.parse.quote(base + rng.choice(["2", "x"]) + "u/cal/" + name))
-                    for u in outs:
+    chunk = 60        # Radicale's history cache makes every write O(items ever stored in the collection): fresh store per chunk
+    for base in ["", "/radicale", "/r", "/my app"]:
+        for start in range(0, n // 4, chunk):
+            with X.fast_server(SD_CONF) as srv:
+                fr = sd_front(srv, base)
+                if base == "/r":
+                    for top in ("/2u/", "/xu/"):
+                        srv.mkcol(top), srv.mkcalendar(top + "cal/")
+                for k in range(start, min(start + chunk, n // 4)):
+                    name = X.rand_component(rng, 8)
+                    path = "/u/cal/" + name
+                    for url in rng.sample(spellings(rng, base + path), 3):
                         checked += 1
-                        bad = sd_check_outside(srv, fr, base, u, "so%d" % checked)
+                        bad = sd_check_url(srv, fr, base, url, path, "sd%d" % checked)
                         if bad:
                             ctx.violation(bad[0], bad[1])
                             return
+                    if base:
+                        # a sibling of the prefix is not below the prefix
+                        outs = [urllib.parse.quote(base + rng.choice(["2", "x", "-", "."]) + path)]
+                        if base == "/r":
+                            outs.append(urllib.parse.quote(base + rng.choice(["2", "x"]) + "u/cal/" + name))
+                        for u in outs:
+                            checked += 1
+                            bad = sd_check_outside(srv, fr, base, u, "so%d" % checked)
+                            if bad:
+                                ctx.violation(bad[0], bad[1])
+                                return
     ctx.extra["monitor_same_decoding_urls"] = checked
     ctx.count("monitor:same_decoding", checked)
 
@@ -977,16 +983,23 @@ def run(ctx):
     ]
     ctx.prove()
     ctx.log("proofs built:", ctx.build_ok)
-    strs, names = stdlib_suites(ctx)
-    ctx.log("stdlib suites done")
-    pathinfo_suite(ctx, strs)
-    make_href_suite(ctx)
-    ctx.log("pathinfo / make_href done")
-    front_suites(ctx)
-    ctx.log("front suites done")
-    multiget_suite(ctx)
-    ctx.log("multiget done")
-    destination_suite(ctx)
-    ctx.log("destination done")
-    monitors(ctx)
-    ctx.log("monitors done")
+    shared = {}
+
+    def phase(name, fn):
+        # a crashing suite (e.g. an answer that cannot be parsed after a code change) must not keep the monitors from running
+        try:
+            fn()
+        except Exception:
+            import traceback
+            tb = traceback.format_exc()
+            print(tb)
+            ctx.obligation("check-machinery-ran:%s" % name, False, tb)
+        ctx.log(name, "done")
+
+    phase("stdlib suites", lambda: shared.update(zip(("strs", "names"), stdlib_suites(ctx))))
+    phase("pathinfo", lambda: pathinfo_suite(ctx, shared.get("strs", [])))
+    phase("make_href", lambda: make_href_suite(ctx))
+    phase("front suites", lambda: front_suites(ctx))
+    phase("multiget", lambda: multiget_suite(ctx))
+    phase("destination", lambda: destination_suite(ctx))
+    phase("monitors", lambda: monitors(ctx))
